@@ -1302,6 +1302,9 @@ class ExprMixin:
         if k == "classref":
             return self.instantiate(callee.args[0], args, kwargs, preds)
         if k == "cls":
+            cs_ = callee.args[0]
+            if cs_ and isinstance(cs_[0], ClassInfo) and not cs_[0].is_subclass_of("SyncedCollection"):
+                return self.instantiate(cs_[0], args, kwargs, preds)  # cls(...) in a classmethod of a helper class
             # type(self)(...) : construct a collection
             return self.construct_collection(callee, args, kwargs, preds)
         if k == "ext":
